@@ -307,7 +307,11 @@ where
         // Disable all vrings
         for (index, vring) in self.vrings.iter().enumerate() {
             vring.set_enabled(false);
+            #[cfg(feature = "verif-hooks")]
+            vhost::vhost_user::verif::hold("ctl.after_state_change");
             self.update_vring_registration(vring, index as u8)?;
+            #[cfg(feature = "verif-hooks")]
+            vhost::vhost_user::verif::hold("ctl.after_epoll_update");
         }
 
         // Reset device state, retain protocol state
@@ -483,7 +487,11 @@ where
         // VHOST_USER_SET_VRING_KICK, and stop ring upon receiving
         // VHOST_USER_GET_VRING_BASE.
         vring.set_queue_ready(false);
+        #[cfg(feature = "verif-hooks")]
+        vhost::vhost_user::verif::hold("ctl.after_state_change");
         self.update_vring_registration(vring, index as u8)?;
+        #[cfg(feature = "verif-hooks")]
+        vhost::vhost_user::verif::hold("ctl.after_epoll_update");
 
         let next_avail = vring.queue_next_avail();
 
@@ -578,7 +586,11 @@ where
         // or after it has been disabled by VHOST_USER_SET_VRING_ENABLE
         // with parameter 0.
         vring.set_enabled(enable);
+        #[cfg(feature = "verif-hooks")]
+        vhost::vhost_user::verif::hold("ctl.after_state_change");
         self.update_vring_registration(vring, index as u8)?;
+        #[cfg(feature = "verif-hooks")]
+        vhost::vhost_user::verif::hold("ctl.after_epoll_update");
 
         Ok(())
     }
